@@ -173,7 +173,7 @@ func c04ValDesc(v []byte) string {
 	return fmt.Sprintf("[%d]%s..", len(v), hex.EncodeToString(v[:16]))
 }
 
-// c04Universe: key lengths 0,1,8,32,64; [2] is a prefix of [3], [5] a prefix of [7], [] of everything.
+// c04Universe: key lengths 0,8,32,200,130,64,1,32,1,64; [1] is a prefix of [2], [4] shares 129 bytes with [3], [] is a prefix of everything.
 func c04Universe() [][]byte {
 	k8 := []byte{1, 2, 3, 4, 5, 6, 7, 8}
 	k32 := append(append([]byte{}, k8...), bytes.Repeat([]byte{0xA5}, 24)...)
@@ -183,7 +183,15 @@ func c04Universe() [][]byte {
 	}
 	k32b := bytes.Repeat([]byte{0xff}, 32)
 	k64b := append(append([]byte{}, k32b...), make([]byte, 32)...)
-	return [][]byte{{}, {0x00}, k8, k32, k64, k32b, {0xff}, k64b}
+	// two keys longer than 128 bytes, of different lengths, sharing a prefix (long keys take other code paths
+	// in a builder that special-cases short keys); they are among the first six so that the quick tier has them
+	k200 := make([]byte, 200)
+	for i := range k200 {
+		k200[i] = byte(i*13 + 5)
+	}
+	k130 := append([]byte{}, k200[:130]...)
+	k130[129] ^= 0x55
+	return [][]byte{{}, k8, k32, k200, k130, k64, {0x00}, k32b, {0xff}, k64b}
 }
 
 // c04SeqKey: distinct keys of 8..10 bytes.
@@ -669,11 +677,11 @@ func TestVerif_C04(t *testing.T) {
 			os.RemoveAll(c04Scratch)
 		}
 	}()
-	R.Rule = "reference model = map key->value. Cases: (small-sets) every subset of <=4 (thorough: <=5) keys of a universe with key lengths 0/1/8/32/64 (two prefix pairs) x every insertion order x every value shape x declared count in {1,n,n+1,10n}: each inserted key must return exactly its value (prefetch on and off), sealed bytes equal across orders and across two seals; (population) every bucket population 1..N in one bucket; (boundary) 9999/10000/10001/20000/20001 keys, natural or all forced into bucket 0, declared n/n+1/10n/1, build must succeed unless a bucket holds more than 10000 keys; (edge) contract edges must end in an error or a correct index, never a panic or a wrong/missing lookup. One evaluation = one real NewBuilder/Insert/Seal/Open/Lookup round; non-trivial = at least two keys or an edge/boundary input."
+	R.Rule = "reference model = map key->value. Cases: (small-sets) every subset of <=4 (thorough: <=5) keys of a universe with key lengths 0/1/8/32/64/130/200 (prefix pairs, two keys longer than 128 bytes) x every insertion order x every value shape x declared count in {1,n,n+1,10n}: each inserted key must return exactly its value (prefetch on and off), sealed bytes equal across orders and across two seals; (population) every bucket population 1..N in one bucket; (boundary) 9999/10000/10001/20000/20001 keys, natural or all forced into bucket 0, declared n/n+1/10n/1, build must succeed unless a bucket holds more than 10000 keys; (edge) contract edges must end in an error or a correct index, never a panic or a wrong/missing lookup. One evaluation = one real NewBuilder/Insert/Seal/Open/Lookup round; non-trivial = at least two keys or an edge/boundary input."
 	uniSize, maxSub, maxPop := 6, 4, 300
 	boundaryNs := []int{9999, 10000, 10001}
 	if vkit.Thorough() {
-		uniSize, maxSub, maxPop = 8, 5, 1200
+		uniSize, maxSub, maxPop = 9, 5, 1200
 		boundaryNs = []int{9999, 10000, 10001, 20000, 20001, 60000}
 	}
 	edges := append(c04GenericEdges(), c04FormatEdges()...)
